@@ -177,7 +177,9 @@ static Verdict d1Strings(const G &g, bool incremental) {
 static rc::Gen<G> genBss() {
   return rc::gen::mapcat(rc::gen::weightedOneOf<int>({{2, rc::gen::just(4)}, {2, rc::gen::just(8)}, {3, rc::gen::map(irange(1, 20), [](int L) { return 100 + L; })}}), [](int w) {
     int L = w >= 100 ? w - 100 : w;
-    return rc::gen::mapcat(rc::gen::weightedOneOf<int>({{4, irange(0, 70)}, {1, irange(71, 600)}}), [w, L](int n) {
+    // rarely a count around 32768 / 65536 (block-wise kernels, 16-bit counters); those bytes come from a seeded xorshift
+    return rc::gen::mapcat(rc::gen::weightedOneOf<int>({{240, irange(0, 70)}, {60, irange(71, 600)}, {L <= 8 ? 5 : 0, rc::gen::element(32767, 32768, 32769, 32784, 40000, 65535, 65536, 65537, 70001)}}), [w, L](int n) {
+      if (n > 600) return rc::gen::map(bits64(), [w, L, n](uint64_t seed) { Bytes b((size_t)n * (size_t)L); uint64_t s = seed | 1; for (auto &x : b) { s ^= s << 13; s ^= s >> 7; s ^= s << 17; x = (uint8_t)(s >> 24); } G g; g.w = w; g.strs.push_back(b); return g; });
       return rc::gen::map(rc::gen::container<Bytes>((size_t)(n * L), rc::gen::arbitrary<uint8_t>()), [w](const Bytes &b) { G g; g.w = w; g.strs.push_back(b); return g; });
     });
   });
@@ -214,7 +216,7 @@ static rc::Gen<G> genPlain() {
   auto withw = [](rc::Gen<G> gg, int w) { return rc::gen::map(gg, [w](G g) { g.w = w; return g; }); };
   return rc::gen::mapcat(rc::gen::element(0, 1, 2, 3, 4, 5, 6, 7), [=](int k) -> rc::Gen<G> {
     switch (k) {
-      case 0: return withw(rc::gen::map(rc::gen::container<std::vector<uint8_t>>(rc::gen::element<uint8_t>(0, 1)), [](const std::vector<uint8_t> &b) { G g; g.ints.assign(b.begin(), b.end()); return g; }), 0);
+      case 0: return withw(rc::gen::map(rc::gen::container<std::vector<uint8_t>>(rc::gen::element<uint8_t>(0, 1, 0, 1, 0, 1, 2, 0x80, 0xff, 0xfe)),   /* the encoder takes 0 / non-0 */ [](const std::vector<uint8_t> &b) { G g; g.ints.assign(b.begin(), b.end()); return g; }), 0);
       case 1: case 4: return withw(rc::gen::map(rc::gen::container<std::vector<uint32_t>>(gen::f32bits()), [](const std::vector<uint32_t> &b) { G g; g.ints.assign(b.begin(), b.end()); return g; }), k);
       case 2: case 5: return withw(rc::gen::map(rc::gen::container<std::vector<uint64_t>>(gen::f64bits()), [](const std::vector<uint64_t> &b) { G g; for (auto x : b) g.ints.push_back((int64_t)x); return g; }), k);
       case 3: return withw(fixed(12), 3);
@@ -233,7 +235,8 @@ static Verdict plainBoth(const G &g) {
   if (g.w == 0) { std::vector<uint8_t> v(g.ints.begin(), g.ints.end()); want = ref::plain_bool(v); Exact in(v); s = carquet_encode_plain_boolean(in.p, (int64_t)n, &out.b);
     if (s == CARQUET_OK) PBT_CHECK(vd, out.bytes() == want, "PLAIN boolean bytes differ from the spec layout (n=%zu)", n);
     Exact e(want), d(n); int64_t r = carquet_decode_plain_boolean(e.p, e.n, d.p, (int64_t)n);
-    PBT_CHECK(vd, r == (int64_t)want.size() && memcmp(d.p, v.data(), n) == 0, "PLAIN boolean decode of spec bytes wrong (r=%lld)", (long long)r);
+    std::vector<uint8_t> canon(v); for (auto &x : canon) x = x ? 1 : 0;
+    PBT_CHECK(vd, r == (int64_t)want.size() && memcmp(d.p, canon.data(), n) == 0, "PLAIN boolean decode of spec bytes wrong (r=%lld)", (long long)r);
   } else if (g.w == 1 || g.w == 4) { std::vector<uint32_t> v(g.ints.begin(), g.ints.end()); want = ref::plain_le(v); Exact in(want);
     s = g.w == 1 ? carquet_encode_plain_int32(in.as<int32_t>(), (int64_t)n, &out.b) : carquet_encode_plain_float(in.as<float>(), (int64_t)n, &out.b);
     if (s == CARQUET_OK) PBT_CHECK(vd, out.bytes() == want, "PLAIN 4-byte values are not little-endian as specified");
